@@ -7,22 +7,22 @@ Open Scope Z_scope.
    requires the phase to be before Share; in one step and between any two consecutive states of
    any history (both for the code as written and with the Restart repair). *)
 Theorem C37_phase_forward_except_reset_or_restart :
-  forall fixed s o, sm_phase (fst (sm_step fixed s o)) < sm_phase s ->
+  forall fx s o, sm_phase (fst (sm_step fx s o)) < sm_phase s ->
     (exists p, o = SmResetPhase p) \/ (o = SmRestart /\ sm_phase s < sm_Share).
 Proof. exact sm_phase_forward. Qed.
 Print Assumptions C37_phase_forward_except_reset_or_restart.
 
 Theorem C37_phase_forward_history :
-  forall fixed ops s i a b o,
-    nth_error (s :: map fst (sm_run fixed s ops)) i = Some a ->
-    nth_error (map fst (sm_run fixed s ops)) i = Some b ->
+  forall fx ops s i a b o,
+    nth_error (s :: map fst (sm_run fx s ops)) i = Some a ->
+    nth_error (map fst (sm_run fx s ops)) i = Some b ->
     nth_error ops i = Some o -> sm_phase b < sm_phase a ->
     (exists p, o = SmResetPhase p) \/ (o = SmRestart /\ sm_phase a < sm_Share).
 Proof. exact sm_phase_forward_history. Qed.
 Print Assumptions C37_phase_forward_history.
 
 (* "The timeout count never decreases", over every history. *)
-Definition C37_timeout_full_statement : Prop := sm_timeout_never_decreases.
+Definition C37_timeout_full_statement : Prop := sm_timeout_never_decreases sm_as_written.
 
 (* False of the code: SetTimeoutCount accepts a count above the configured cap and the next
    IncrementTimeoutCount lowers it to the cap (witness: cap 1, SetTimeoutCount 3, increment). *)
@@ -33,40 +33,49 @@ Print Assumptions C37_timeout_never_decreases_refuted.
 (* Outside the triggers (an increment while the count is above a positive cap; an increment at
    MaxInt64) no operation lowers the count ... *)
 Theorem C37_timeout_step_partial :
-  forall fixed s o, - 2^63 <= sm_tcount s < 2^63 - 1 ->
+  forall fx s o, - 2^63 <= sm_tcount s < 2^63 - 1 ->
     (forall prrs perm self cap, o = SmIncTimeout prrs perm self cap -> cap <= 0 \/ sm_tcount s <= cap) ->
-    sm_tcount s <= sm_tcount (fst (sm_step fixed s o)).
+    sm_tcount s <= sm_tcount (fst (sm_step fx s o)).
 Proof. exact sm_timeout_step_partial. Qed.
 Print Assumptions C37_timeout_step_partial.
 
 (* ... and with a constant positive cap and SetTimeoutCount arguments within it, the counts of
    every history are nondecreasing and stay within the cap. *)
 Theorem C37_timeout_monotone_within_cap :
-  forall fixed K number ops, 0 < K < 2^63 - 1 -> Forall (sm_op_cap_ok K) ops ->
-    sm_nondecreasing 0 (sm_tcounts fixed (sm_init number) ops) /\
-    Forall (fun c => 0 <= c <= K) (sm_tcounts fixed (sm_init number) ops).
+  forall fx K number ops, 0 < K < 2^63 - 1 -> Forall (sm_op_cap_ok K) ops ->
+    sm_nondecreasing 0 (sm_tcounts fx (sm_init number) ops) /\
+    Forall (fun c => 0 <= c <= K) (sm_tcounts fx (sm_init number) ops).
 Proof. exact sm_timeout_monotone_capped. Qed.
 Print Assumptions C37_timeout_monotone_within_cap.
+
+(* With the two timeout repairs (SetTimeoutCount clamps its argument to the cap; the increment
+   stops at MaxInt64) and a constant cap (0 = none), the counts of every history never decrease. *)
+Theorem C37_timeout_monotone_after_repair :
+  forall fx K number ops, fx_clamp fx = true -> fx_saturate fx = true -> 0 <= K < 2^63 ->
+    Forall (sm_op_cap_const K) ops ->
+    sm_nondecreasing 0 (sm_tcounts fx (sm_init number) ops).
+Proof. exact sm_timeout_monotone_repaired. Qed.
+Print Assumptions C37_timeout_monotone_after_repair.
 
 (* At most threshold-many VRF shares, at most one per miner, in every reachable state; an
    accepted AddVRFShare leaves at most [threshold] shares and was not a second share. *)
 Theorem C37_shares_bounded_one_per_miner :
-  forall fixed T number ops, Forall (sm_op_thr_ok T) ops ->
+  forall fx T number ops, Forall (sm_op_thr_ok T) ops ->
     Forall (fun sr => NoDup (sm_shares (fst sr)) /\ Z.of_nat (length (sm_shares (fst sr))) <= Z.max T 0)
-           (sm_run fixed (sm_init number) ops).
+           (sm_run fx (sm_init number) ops).
 Proof. exact sm_shares_bounded. Qed.
 Print Assumptions C37_shares_bounded_one_per_miner.
 
 Theorem C37_accepted_share_within_threshold :
-  forall fixed s party threshold,
-    snd (sm_step fixed s (SmAddShare party threshold)) = Ret (VBool true) ->
-    Z.of_nat (length (sm_shares (fst (sm_step fixed s (SmAddShare party threshold))))) <= threshold /\
-    ~ In party (sm_shares s) /\ In party (sm_shares (fst (sm_step fixed s (SmAddShare party threshold)))).
+  forall fx s party threshold,
+    snd (sm_step fx s (SmAddShare party threshold)) = Ret (VBool true) ->
+    Z.of_nat (length (sm_shares (fst (sm_step fx s (SmAddShare party threshold))))) <= threshold /\
+    ~ In party (sm_shares s) /\ In party (sm_shares (fst (sm_step fx s (SmAddShare party threshold)))).
 Proof. exact sm_add_share_within_threshold. Qed.
 Print Assumptions C37_accepted_share_within_threshold.
 
 (* "Every round operation returns", over every history of the code as written. *)
-Definition C37_full_statement : Prop := sm_every_op_returns false.
+Definition C37_full_statement : Prop := sm_every_op_returns sm_as_written.
 
 (* False: after AddNotarizedBlock (phase Share) a Restart is rejected and returns with the
    mutex still locked; the next operation that takes the mutex never returns. *)
@@ -77,32 +86,32 @@ Print Assumptions C37_every_op_returns_refuted.
 (* The rejected Restart itself returns; and as long as no Restart was rejected every operation
    of the history returns. *)
 Theorem C37_rejected_restart_returns :
-  forall fixed s, sm_held s = false -> snd (sm_step fixed s SmRestart) <> Blocked.
+  forall fx s, sm_held s = false -> snd (sm_step fx s SmRestart) <> Blocked.
 Proof. exact sm_rejected_restart_returns. Qed.
 Print Assumptions C37_rejected_restart_returns.
 
 Theorem C37_every_op_returns_partial :
-  forall number ops,
-    Forall (fun sr => snd sr <> Ret VRestartRejected) (sm_run false (sm_init number) ops) ->
-    sm_all_return false number ops.
+  forall fx number ops,
+    Forall (fun sr => snd sr <> Ret VRestartRejected) (sm_run fx (sm_init number) ops) ->
+    sm_all_return fx number ops.
 Proof. exact sm_all_return_partial. Qed.
 Print Assumptions C37_every_op_returns_partial.
 
 (* With the Unlock added on the rejected path the full statement holds. *)
-Theorem C37_every_op_returns_after_repair : sm_every_op_returns true.
+Theorem C37_every_op_returns_after_repair : forall fx, fx_restart fx = true -> sm_every_op_returns fx.
 Proof. exact sm_every_op_returns_repaired. Qed.
 Print Assumptions C37_every_op_returns_after_repair.
 
 (* A finalized round stays finalized under every operation except the unconditional
    ResetFinalizingState; the conditional reset leaves a finalized round untouched. *)
 Theorem C37_finalized_stays_finalized :
-  forall fixed s o, sm_finalized s = true -> o <> SmResetFin ->
-    sm_finalized (fst (sm_step fixed s o)) = true.
+  forall fx s o, sm_finalized s = true -> o <> SmResetFin ->
+    sm_finalized (fst (sm_step fx s o)) = true.
 Proof. exact sm_finalized_stays. Qed.
 Print Assumptions C37_finalized_stays_finalized.
 
 Theorem C37_conditional_reset_keeps_finalized :
-  forall fixed s, sm_finalized s = true -> fst (sm_step fixed s SmResetFinIfNot) = s.
+  forall fx s, sm_finalized s = true -> fst (sm_step fx s SmResetFinIfNot) = s.
 Proof. exact sm_conditional_reset_keeps_finalized. Qed.
 Print Assumptions C37_conditional_reset_keeps_finalized.
 
@@ -129,9 +138,9 @@ Print Assumptions C37_phase_forward_with_cas.
 
 (* Non-vacuity: a history exercising shares, the phase, a rejected restart and the leak. *)
 Example C37_example :
-  map snd (sm_run false (sm_init 5)
+  map snd (sm_run sm_as_written (sm_init 5)
     [SmAddShare 1 2; SmAddShare 1 2; SmAddShare 2 2; SmAddShare 3 2; SmSetPhase 1; SmRestart;
-     SmGetShares; SmAddNotarized; SmGetPhase; SmSetTimeout 4; SmIncTimeout 9 [2; 1] 1 0; SmGetTimeout;
+     SmGetShares; SmAddNotarized; SmGetPhase; SmSetTimeout 4 0; SmIncTimeout 9 [2; 1] 1 0; SmGetTimeout;
      SmSetFinalized; SmResetFinIfNot; SmIsFinalized; SmRestart; SmGetPhase; SmIsFinalized])
   = [Ret (VBool true); Ret (VBool false); Ret (VBool true); Ret (VBool false); Ret VUnit; Ret VUnit;
      Ret (VSet []); Ret VUnit; Ret (VInt 3); Ret (VBool true); Ret VUnit; Ret (VInt 5);
